@@ -27,6 +27,13 @@ def cases(draw, procs=False):
     # (giving two of --ndiff/--udiff/--cdiff is rejected at start-up, as documented: keep the first only)
     diffs = [f for f in extra if f in ('--ndiff', '--udiff', '--cdiff')]
     opts['extra'] = [f for f in extra if f not in diffs[1:]]
+    if opts['repeat'] > 1 and draw(st.booleans()):
+        # a test that raises in one iteration only (state surviving from one iteration to the next)
+        tests = [t for _, t in gen.iter_tests(spec) if t['k'] == 'pass']
+        if tests:
+            t = tests[draw(st.integers(0, len(tests) - 1))]
+            t.setdefault('acts', {}).setdefault(draw(st.sampled_from(['setUp', 'body', 'tearDown'])), []).append(
+                ['flaky', draw(st.integers(1, opts['repeat'])), draw(st.sampled_from(['AssertionError', 'ValueError']))])
     if procs:
         opts['j'] = draw(st.sampled_from([None, 2]))
     return {'spec': spec, 'opts': opts}
@@ -75,6 +82,40 @@ def oracle(spec, opts, run):
         for sig, msg in traceana.check_layer_stack(w, evs, ''):
             if sig in ('C01/never-torn-down', 'C01/teardown-count'):
                 viol.append(('C04/' + sig[4:], msg))
+    # "it is recorded against that test": every test that raised in some iteration is in the runner's failure / error
+    # records when the run is over (single-process runs: the Runner object is at hand), and the verdict says so
+    raised, cur = {}, {}
+    for e in run.trace:
+        if e['ev'] == 'T' and e['ph'] == 'run':
+            cur[e['pid']] = e['id']
+            rec = w.tests.get(e['id'])
+            if rec is not None and model.is_bad(rec['t']):
+                raised.setdefault(e['id'], rec['t']['k'])
+        elif e['ev'] == 'T' and e['ph'] == 'ran':
+            cur.pop(e['pid'], None)
+        elif e['ev'] == 'raise' and e.get('flaky') and cur.get(e['pid']):
+            raised.setdefault(cur[e['pid']], 'flaky')
+    if raised:
+        if run.failed is False:
+            viol.append(('C04/not-recorded/verdict', '%d tests raised (%s) but the run reports success'
+                         % (len(raised), sorted(raised)[0])))
+        if run.runner is not None and len(traceana.by_pid(run.trace)) <= 1:
+            recorded = set()
+            for entry in list(run.runner.failures) + list(run.runner.errors):
+                t = entry[0]
+                t = getattr(t, 'test_case', t)
+                try:
+                    recorded.add(t.id())
+                except Exception:  # noqa: BLE001  (layer failures are recorded with other objects)
+                    pass
+            for tid in sorted(raised):
+                if tid not in recorded:
+                    viol.append(('C04/not-recorded/%s' % ('flaky' if raised[tid] == 'flaky' else 'test'),
+                                 'test %s (%s) raised but is in neither the failures nor the errors the runner recorded'
+                                 % (tid, raised[tid])))
+                    break
+        if 'flaky' in raised.values():
+            labels.append('raises-in-one-iteration-only')
     if len(p.blocks) >= 2 and p.total is None:
         viol.append(('C04/total-missing', 'no "Total:" line although %d layers ran' % len(p.blocks)))
     kinds = common.count_kinds(spec)
